@@ -49,7 +49,7 @@ BYTES_TRUSTED = "crate `bytes` (BytesMut/Bytes) is executed as compiled, not spe
 # hasher lemmas (shared by C09 and C10)
 # ---------------------------------------------------------------------------
 prop("C10",
-     outside="BuzHash windows other than those instantiated (1..5, 8, 16, 32, 64: one harness per window and ring index listed); RollSum windows > 3 (the adder-chain equivalence does not finish in the SAT back end; w=4 is attempted in the thorough tier); from-reset harnesses: prefixes <= 6 and common data <= 10 bytes; chunker-level resync: BuzHash over a 4-letter alphabet with an arbitrary table, configurations of the grid (w<=3,max<=6), for RollSum by composition (rule harness with o=0 + hasher lemma) rather than by a two-instance harness; run lengths >= 2^64",
+     outside="BuzHash windows other than those instantiated (1..5, 8, 16, 32, 64: one harness per window and ring index listed); RollSum windows > 3 (the adder-chain equivalence does not finish in the SAT back end: w=4 ran 50 minutes without a verdict); from-reset harnesses: prefixes <= 6 and common data <= 10 bytes; chunker-level resync: BuzHash over a 4-letter alphabet with an arbitrary table, configurations of the grid (w<=3,max<=6), for RollSum by composition (rule harness with o=0 + hasher lemma) rather than by a two-instance harness; run lengths >= 2^64",
      assumptions=["ring index of the hashers is enumerated concretely per harness instance, all byte values symbolic",
                   "BuzHash harnesses look each symbolic byte up once and reason over the table values; c09_buz_new_equals_literal ties the struct-literal constructor used by harnesses to BuzHash::new"])
 prop("C09",
@@ -71,7 +71,7 @@ for nm, u in (("w2_p0_p3", "quick"), ("w3_p0_p4", "quick"), ("w3_p2_p4", "thorou
     h("c10_buz_window_only_" + nm, ["C10"], u,
       "window/prefix lengths as in the name (concrete), every prefix and suffix byte symbolic, suffix 7..10 bytes",
       "two BuzHash instances fed P1+S and P2+S from reset report equal sums from one window into S on", BUZ)
-for w, idxs, u in ((1, [0], "quick"), (2, [0, 1], "quick"), (3, [0, 1, 2], "quick"), (4, [0, 1, 2, 3], "thorough")):
+for w, idxs, u in ((1, [0], "quick"), (2, [0, 1], "quick"), (3, [0, 1, 2], "quick")):
     for i in idxs:
         h("c10_rollsum_inductive_step_w%d_i%d" % (w, i), ["C10", "C09"], u,
           "window=%d, ring offset=%d (concrete); window bytes and next byte symbolic; s1,s2 any u32 consistent with the window" % (w, i),
@@ -108,8 +108,6 @@ h("c09_rule_first_chunk_rollsum", ["C09"], "thorough",
   "8 symbolic bytes, len 0..8; window 1..3, min<=max<=6, window<=max, filter bits 1..3: all symbolic",
   "next() on a fresh RollSum chunker == the independent rule (least e >= max(min,1) with closed-form hash of the trailing window matching the mask, else max, else None); chunk bytes, rest of buffer, offset reset; POST-STATE: offset == len after None, hasher window == a reference fed exactly the hashed bytes once",
   RHC + RS)
-h("c09_rule_first_chunk_rollsum_big", ["C09"], "thorough",
-  "10 symbolic bytes; window 1..4, max <= 8, bits 1..4: all symbolic", "as c09_rule_first_chunk_rollsum at the larger bound", RHC + RS)
 h("c09_rule_mid_chunk_rollsum", ["C09"], "thorough",
   "7 symbolic bytes + 3 symbolic previous bytes; scan offset o any 0..len (o=0: chunk after a boundary; o>0: after refills); config symbolic as above",
   "one next() from ANY mid-chunk state (offset o, hasher holding the last w bytes fed) == the rule evaluated on the whole buffer, and it ENDS in such a state again (post-state check) => refill independence and the rule for every chunk after the first, by induction",
@@ -175,7 +173,9 @@ h("c08_range_request_init_step", ["C08"], "thorough", "as _b1 with retry budget 
 h("c08_range_request_stream_step", ["C08"], "quick", "open body requested at first<8 having sent 0..4 bytes, missing 1..5; rest of its script and the reply to a re-request arbitrary; budget 0..1",
   "one poll from state Stream: a mid-body failure re-requests from the first byte not yet received (no progress lost, nothing duplicated), early clean end => end of stream with nothing delivered, error only with budget 0",
   RR, [STUB_REQWEST, STUB_FORMAT, STUB_SLEEP])
-h("c08_range_request_pending_step", ["C08"], "thorough", "send and/or first fragment Pending", "Pending leaves offset/size/budget untouched and the next poll continues with the same request", RR, [STUB_REQWEST, STUB_FORMAT, STUB_SLEEP])
+for nm in ("send", "frag", "both"):
+    h("c08_range_request_pending_step_" + nm, ["C08"], "quick", "the send future and/or the first body fragment answer Pending once (which: concrete per instance); offset<8, size 1..5 symbolic",
+      "Pending leaves offset/size/budget untouched and the next poll continues with the same request (no duplicate request), delivering the next bytes of the range", RR, [STUB_REQWEST, STUB_FORMAT, STUB_SLEEP])
 h("c08_single_retries", ["C08"], "quick", "offset<16, size 1..5, retries 0..2, three arbitrary replies",
   "single() (read_at path) retries from the original offset with the full range each time, <= retries+1 requests, error only when exhausted, body is a prefix of the range",
   ["HttpRangeRequest::single", "HttpRangeRequest::single_fail"], [STUB_REQWEST, STUB_FORMAT, STUB_SLEEP])
@@ -191,8 +191,9 @@ prop("C04",
 h("c04_verify_step", ["C04"], "quick", "chunk data <= 5 symbolic bytes; expected hash: 64 symbolic bytes truncated to any L in 1..64",
   "ArchiveChunk::verify is Ok iff the first L bytes of the digest equal the expected hash; Ok hands on the unchanged chunk with that hash, Err carries the chunk (no VerifiedChunk exists for a mismatching chunk)",
   ["ArchiveChunk::verify", "HashSum::truncate", "HashSum::eq"], [IDEAL])
-h("c04_verified_means_same_bytes", ["C04"], "thorough", "fetched chunk <= 4 bytes, source chunk <= 4 bytes, hash length 6..64 (truncated ideal digest still injective)",
-  "a fetched chunk that verifies against the hash of source data IS that data", ["ArchiveChunk::verify"], [IDEAL])
+for nm in ("2_2", "4_4", "3_2", "0_1"):
+    h("c04_verified_means_same_bytes_" + nm, ["C04"], "quick", "fetched / source chunk lengths as in the name (concrete), contents symbolic, hash length 6..64 symbolic (truncated ideal digest still injective)",
+      "a fetched chunk that verifies against the hash of source data IS that data (and a chunk of a different length never verifies)", ["ArchiveChunk::verify"], [IDEAL])
 h("c04_decompress_raw_identity", ["C04", "C17"], "quick", "chunk <= 5 symbolic bytes, any source_size",
   "a raw (compression == None) chunk reaches verification byte-identical with its expected hash", ["CompressedArchiveChunk::decompress", "CompressedChunk::decompress"])
 h("c04_hashsum_eq_is_prefix_compare", ["C04", "C02"], "quick", "two HashSums: 64 symbolic bytes and any length 0..64 each (full width)",
@@ -239,6 +240,11 @@ for nm, u in (("both_raw_comp", "quick"), ("both_comp_raw", "quick"), ("both_noc
       "2 descriptors; which of them the clone index still wants, stored/source sizes and the archive-wide compression as in the name (concrete); archive offsets: ANY u64 each (any order/gaps/overlap)",
       "read_chunks receives exactly the descriptors still in the clone index, each once, in descriptor order, (offset,size) verbatim; nothing else is read; item i carries descriptor i's checksum; raw iff stored size == source size else the archive-wide algorithm",
       ["Archive::chunk_stream", "ChunkIndex::contains", "StreamUntilFirstError::poll_next"], [MODEL_MAP, "recording ArchiveReader mock that answers each range with a slice of the requested length"])
+for nm in ("tft", "ftt", "ttt", "fft", "ttf"):
+    h("c06_chunk_stream3_" + nm, ["C06"] if nm == "tft" else ["C06", "C17"], "quick" if nm == "tft" else "thorough",
+      "3 descriptors; wanted subset as in the name (t/f per descriptor, concrete -- `tft`: an unwanted descriptor between two wanted ones), sizes concrete, archive offsets ANY u64 each",
+      "as c06_chunk_stream_*: requested ranges are exactly the wanted descriptors' stored ranges in descriptor order, item i is paired with the i-th WANTED descriptor (checksum, raw-vs-compressed)",
+      ["Archive::chunk_stream", "ChunkIndex::contains", "StreamUntilFirstError::poll_next"], [MODEL_MAP, "recording ArchiveReader mock that answers each range with a slice of the requested length"], heavy=True)
 h("c17_pre_header_magics", ["C17", "C15"], "quick", "every byte string of length 0..16", "verify_pre_header accepts exactly b\"BITA1\\0\" and the legacy b\"\\0BITA1\" prefixes, rejects everything else (incl. < 6 bytes) without panicking", ["Archive::verify_pre_header"])
 
 # ---------------------------------------------------------------------------
